@@ -383,8 +383,8 @@ class StateMachine(object):  # pylint: disable=too-many-public-methods
 
     def ae_8(self):
         """Send A-ASSOCIATE-RJ PDU."""
-        # not sure about this ...
         self.dul_socket.sendall(self.primitive.encode())
+        self.timer.start()
         return States.STA_13
 
     def dt_1(self):
